@@ -8,4 +8,6 @@ python3 tools/extract_tables.py
 (cd lean && lake build Resvg resvg-model)
 cp /repo/Cargo.lock harness/Cargo.lock 2>/dev/null || true
 (cd harness && RUSTFLAGS="--cfg resvg_verif" cargo build --offline)
+# the command-line binaries for C20 (dev profile with optimisation, debug assertions kept)
+(cd /repo && cargo build --offline --config profile.dev.opt-level=2 -p resvg -p usvg --bins --target-dir /verif/harness/target/cli)
 echo setup-ok
